@@ -547,7 +547,13 @@ class Folder:
             return Unknown('depth')
         ret = single_return_expr(f)
         if ret is None:
-            return Unknown('function %s is not a single return expression' % f.key)
+            let = straight_line_lets(f)
+            if let is None:
+                return Unknown('function %s is not a single return expression' % f.key)
+            env = dict(env)
+            for name, value in let[0]:
+                env[name] = self.fold(f.module, f, value, env, depth + 1)
+            ret = let[1]
         return self.fold(f.module, f, ret, env, depth + 1)
 
     def bind_args(self, f: FuncDef, call: ast.Call, m, func, env, depth, cls_ctx, skip_first: bool) -> Optional[dict]:
@@ -875,6 +881,26 @@ def single_return_expr(f: FuncDef) -> Optional[ast.AST]:
             and isinstance(body[0].targets[0], ast.Name) and body[0].targets[0].id == body[1].value.id:
         return body[0].value
     return None
+
+
+def straight_line_lets(f: FuncDef):
+    """([(name, value expr)], return expr) of a body that is `n1 = e1; n2 = e2; ...; return e` with every name bound
+    once and no name a parameter (local temporaries of a pure expression), else None"""
+    body = [s for s in f.node.body
+            if not (isinstance(s, ast.Expr) and isinstance(s.value, ast.Constant) and isinstance(s.value.value, str))]
+    body = [s for s in body if not isinstance(s, (ast.Assert, ast.Pass))]
+    if len(body) < 2 or not isinstance(body[-1], ast.Return) or body[-1].value is None:
+        return None
+    params = {p.arg for p in f.params}
+    lets = []
+    for s in body[:-1]:
+        if not (isinstance(s, ast.Assign) and len(s.targets) == 1 and isinstance(s.targets[0], ast.Name)):
+            return None
+        name = s.targets[0].id
+        if name in params or any(name == n for n, _ in lets):
+            return None
+        lets.append((name, s.value))
+    return lets, body[-1].value
 
 
 def tuple_record_elements(ix: Index, c: ClassDef):
